@@ -25,7 +25,11 @@ observables break it):
       write_script call of the real run for that instance: directory relative
       to the output root / temp root (masked), script and restart-script file
       names, command and restart texts, scheduled flag; without --usetmp also
-      the *.sh files on disk (relative path + bytes, roots masked).
+      the *.sh files on disk (relative path + bytes, roots masked);
+  (d) the directory tree below the study output path (every step instance's
+      workspace, their parent directories, meta/, logs/) of the dry run equals
+      the real run's -- for {--usetmp} x {--hashws} (with --usetmp the scripts
+      go to the temp directory, the workspaces must exist all the same).
 Inside Coq (ExecCases.both_ok 17, cfg dry = true): the Exec model's trace (EGen
 events per poll, rows, status) = the dry run's, and monitor family 17 silent.
 """
@@ -208,6 +212,26 @@ def disk_scripts(out):
     return res
 
 
+def dir_tree(out):
+    """every directory below the study output path, relative (step workspaces, their parents, meta/, logs/)"""
+    res = set()
+    for base, dirs, _files in os.walk(out):
+        for x in dirs:
+            res.add(os.path.relpath(os.path.join(base, x), out))
+    return res
+
+
+def tree_clause(case, dry_out, real_out):
+    """clause (d): the directory tree of the dry run = the real run's -> violation text or None"""
+    td, tr = dir_tree(dry_out), dir_tree(real_out)
+    if td == tr:
+        return None
+    return ("directory tree below the study output path differs%s%s: the real run created %d directories, the dry run %d; "
+            "missing in the dry run: %r; only in the dry run: %r"
+            % (" --usetmp" if case.get("usetmp") else "", " --hashws" if case.get("hashws") else "",
+               len(tr), len(td), sorted(tr - td)[:6], sorted(td - tr)[:6]))
+
+
 def judge(case, d, res):
     """-> (violations [str], problems [str], ecase or None, info)"""
     viol, prob = [], []
@@ -279,6 +303,12 @@ def judge(case, d, res):
             if sd != sr:
                 k = next(k for k in sorted(set(sd) | set(sr)) if sd.get(k) != sr.get(k))
                 viol.append("script file %s: dry run %r, real run %r" % (k, (sd.get(k) or "<absent>")[:120], (sr.get(k) or "<absent>")[:120]))
+        # (d) same directory tree (every step instance's workspace exists), with and without --usetmp / --hashws
+        if rc == 0:
+            t = tree_clause(case, dry_out, real_out)
+            info["tree_dirs"] = len(dir_tree(real_out))
+            if t:
+                viol.append(t)
     # model trace (only a dry run that behaved like one can be written in the model's vocabulary)
     ecase = None
     if graphs and rc == 0 and not viol and len(graphs) == npolls:
@@ -375,7 +405,8 @@ def run_cases(ck, cases, tag="C17_e2e"):
 def run_e2e(ck):
     rng = random.Random(ck.seed * 7477 + 17)
     n = QUICK_N if ck.tier != "thorough" else THOROUGH_N
-    cases = [gen_dry_study(rng, i) for i in range(n)]
+    from harness.props import c17_procs
+    cases = c17_procs.corpus_cases("e2e") + [gen_dry_study(rng, i) for i in range(n)]      # corpus/C17/e2e/*.json first
     ck.cov["e2e_dry_runs"] = run_cases(ck, cases)
     na = API_QUICK_N if ck.tier != "thorough" else API_THOROUGH_N
     ck.cov["e2e_api"] = run_api_cases(ck, [gen_api_case(rng, i) for i in range(na)])
